@@ -46,6 +46,15 @@ fn main() {
             let alphabet: Vec<u8> = vec![0x00, 0x01, 0x02, b'a', 0x3F, 0x40, 0xC0, 0x0C, 0x0D, 0x0F, 0xFF];
             let maxlen = a.get("maxlen").and_then(|s| s.parse().ok()).unwrap_or(if thorough { 4 } else { 3 });
             let mut cases = decode::enumerated(&alphabet, maxlen);
+            // datagrams enumerated by TLC (MCDecodePtr: pointer structures; MCDecodeRR: RDLENGTH claims x RDATA)
+            if let Some(path) = a.get("cases") {
+                let text = std::fs::read_to_string(path).expect("cases file");
+                for line in text.lines().filter(|l| !l.trim().is_empty()) {
+                    let v: serde_json::Value = serde_json::from_str(line).expect("case json");
+                    let bytes: Vec<u8> = v["b"].as_array().expect("b").iter().map(|x| x.as_u64().unwrap_or(0) as u8).collect();
+                    cases.push(decode::Case { kind: "tlc", bytes });
+                }
+            }
             let scale = if thorough { 20 } else { 1 };
             cases.extend(decode::generated(seed, 1500 * scale, 2500 * scale, 2500 * scale, 12 * scale));
             let summary = decode::drive(cases, &out, 8);
